@@ -63,3 +63,85 @@ def run(prog, E=None, rule="R-STRUCTFREE", exceptions=EXCEPT):
     res.floor("pointer fields receiving allocations", n, 60)
     res.floor("records with a destructor", len(own), 10)
     return res
+
+
+RELEASE = {"free", "ILLutil_freerus", "EGfree"}
+
+
+def run_nodefree(prog, E=None, rule="R-NODEFREE"):
+    """deep release: a function that releases an object of a record type R which owns heap storage (R has fields that R's destructor
+    releases) releases those fields first - by freeing x->field itself or by handing x to a function that does.  Otherwise every
+    discarded node of a list (the errors recorded by an error-memory collector) loses the strings hanging off it."""
+    E = E or Effects(prog)
+    res = RuleResult(rule, "before an object of a record type that owns heap blocks is released, its owning fields are released (directly or by a "
+                           "destructor of that record called on the same pointer)")
+    by_func = {}
+    own = copyrule.owning_fields(prog, E, by_func=by_func)
+    direct = {rec: {fp[0] for fp in fps if len(fp) == 1} for rec, fps in own.items()}
+    # destructors: functions that release a field of R through a parameter of type R * (from the effect summaries)
+    destructors = collections.defaultdict(dict)     # rec -> {function key: set of first fields}
+    for rec, fm in by_func.items():
+        for fk, fps in fm.items():
+            destructors[rec][fk] = {fp[0] for fp in fps}
+    n = 0
+    for f in sorted(prog.funcs.values(), key=lambda x: x.key):
+        if "_dbl." in f.unit or "_mpf." in f.unit or f.live is None or "binary_" in f.unit:
+            continue
+        rel_fields = collections.defaultdict(set)     # variable name -> fields released through it in this function
+        via_destr = collections.defaultdict(set)
+        frees = []
+        alias = {}                                    # local -> (owner variable, field) when assigned from owner->field
+        for b, i, e in f.elements():
+            pairs = []
+            if e[0] == "A" and e[1][1] == "=" and is_var(e[1][2], kind="l"):
+                pairs.append((strip(e[1][2])[2], e[1][3]))
+            elif e[0] == "D":
+                pairs += [(n2, init) for n2, init in e[1] if init is not None]
+            for n2, rhs in pairs:
+                pp = apath(rhs)
+                fl2 = fields_of(pp[2])
+                if len(fl2) == 1 and (pp[0] == "l" or pp[0].startswith("p")):
+                    alias.setdefault(n2, (pp[1], fl2[0]))
+        for b, i, c in f.calls():
+            nm = callee(c)
+            if nm in RELEASE and c[3]:
+                a = strip(c[3][0])
+                p = apath(a)
+                fl = fields_of(p[2])
+                if is_var(a) and not fl and a[2] in alias:
+                    rel_fields[alias[a[2]][0]].add(alias[a[2]][1])      # releasing a local that walks owner->field
+                if is_var(a) and not fl:
+                    ty = (f.var_type(a) or "").replace("const ", "").replace("struct ", "")
+                    rec = ty.replace("*", "").strip()
+                    if ty.count("*") == 1 and rec in direct and direct[rec]:
+                        frees.append((a[2], rec, c))
+                elif len(fl) == 1 and p[0] in ("l",) or (len(fl) == 1 and p[0].startswith("p")):
+                    rel_fields[p[1]].add(fl[0])
+            elif c[1] is not None:
+                g = prog.resolve(f, c[1])
+                if g is not None:
+                    for k, a in enumerate(c[3]):
+                        a = strip(a)
+                        if is_var(a):
+                            for rec, ds in destructors.items():
+                                if g.key in ds:
+                                    via_destr[a[2]] |= ds[g.key]
+        for (var, rec, c) in frees:
+            n += 1
+            res.obligations += 1
+            res.nontrivial += 1
+            missing = sorted(fld for fld in direct[rec] if fld not in rel_fields[var] and fld not in via_destr[var])
+            if f.key in destructors.get(rec, {}):
+                missing = [m for m in missing if m not in destructors[rec][f.key]]
+            if missing:
+                res.violations.append(Violation(rule, "%s|%s released without its %s" % (f.name.replace("mpq_", ""), rec.replace("mpq_", ""), ",".join(m.split("::")[1] for m in missing)),
+                                                f.name, short_loc(c[4]),
+                                                "%s releases an object of type %s, whose field(s) %s own heap blocks (released elsewhere by %s), without releasing them "
+                                                "first: the blocks are lost with every object discarded here" % (
+                                                    show(c)[:60], rec, ", ".join(m.split("::")[1] for m in missing),
+                                                    ", ".join(sorted(prog.funcs[k].name for k in destructors.get(rec, {}) if k in prog.funcs))[:80] or "no destructor")))
+            else:
+                res.sample({"site": "%s %s: %s" % (short_loc(c[4]), f.name, show(c)[:50]), "verdict": "owning fields of %s released first" % rec}, limit=8)
+    res.counts["releases_of_owning_records"] = n
+    res.floor("releases of objects of owning record types", n, 5)
+    return res
